@@ -31,7 +31,9 @@ vector v over index values, values between them and beyond them (known divisions
 Complete sub-space (first in the stream): the 6-row frame with sorted unique index (10, 20, .., 60) and the same frame
 with the dense index (0, .., 5): all 32 compositions of the 6 rows into consecutive non-empty source partitions, with
 known and with unknown divisions, x ``npartitions`` 1..8, and (known divisions, sparse index) x all 16 target division
-vectors drawn from the index values (first and last kept).  Thorough additionally: all 512 known-division sources over
+vectors drawn from the index values (first and last kept); every pair (source partition count o <= 32 [thorough 48],
+target n < o) on a RangeIndex frame with one row per source partition (known / unknown divisions alternating) — the
+partition-boundary arithmetic of ``RepartitionToFewer`` is float based.  Thorough additionally: all 512 known-division sources over
 the grid 10, 15, .., 60 (these contain empty partitions) x npartitions 1..8 and x the 16 target vectors, and the
 duplicate index (1, 1, 2, 3, 3, 3) with all valid sources and targets (incl. a repeated last division).
 
@@ -80,8 +82,8 @@ FLOORS = {
 EXHAUSTIVE_SPACE = {
     "quick": "6-row frames with index (10..60 step 10) and (0..5): all 32 compositions into non-empty source partitions x "
              "{known, unknown divisions} x repartition(npartitions=1..8); known sparse sources x all 16 target division "
-             "vectors drawn from the index values",
-    "thorough": "quick space + all 512 known-division sources over the grid 10,15,..,60 (with empty partitions) x "
+             "vectors drawn from the index values; all (source partition count o<=32, target npartitions n<o) pairs",
+    "thorough": "quick space (count pairs up to o<=48) + all 512 known-division sources over the grid 10,15,..,60 (with empty partitions) x "
                 "npartitions 1..8 and x the 16 target division vectors; duplicate index (1,1,2,3,3,3): all 4 valid sources "
                 "(incl. repeated last division) x npartitions 1..8 and x the same 4 vectors as targets",
 }
@@ -152,7 +154,7 @@ def cases(tier, seed):
                 yield {"space": "exhaustive", "e": "dups", "sdiv": sd, "known": True,
                        "t": {"k": "divisions", "d": td, "force": False}}
     # ---- random
-    k = 5000 if tier == "quick" else 60000
+    k = 3200 if tier == "quick" else 60000
     for _ in range(k):
         nrows = rng.choice((0, 1, 2, 3, 5, 6, 8)) if rng.random() < 0.25 else rng.randint(4, 40)
         kind = rng.choice(INDEX_KINDS)
